@@ -396,7 +396,7 @@ pub fn shard_child(args: &[String]) -> i32 {
         scale: args[6].parse().unwrap_or(1.0),
         tiny: false,
         shard: Some((args[3].parse().unwrap_or(0), args[4].parse().unwrap_or(1))),
-        lane_cap_s: Some((std::env::var("VERIF_THOROUGH_SECS").ok().and_then(|v| v.parse::<u64>().ok()).unwrap_or(900) / 3).max(20)),
+        lane_cap_s: Some((std::env::var("VERIF_THOROUGH_SECS").ok().and_then(|v| v.parse::<u64>().ok()).unwrap_or(600) / 3).max(20)),
     };
     let rep = match args[0].as_str() {
         "decoder" => decoder_inner(&ctx),
@@ -445,7 +445,7 @@ pub struct DriverObs {
     pub stream_events_after: usize,
 }
 
-fn envelope_class(input: &[u8]) -> &'static str {
+pub fn envelope_class(input: &[u8]) -> &'static str {
     // narrow definition of "not an LDAPMessage envelope"
     match ber::decode_exact(input) {
         // an inner element that runs past the end of its container: the bytes cannot be read as BER
